@@ -82,7 +82,21 @@ Qed.
 
 Lemma clookup_cupdate : forall c k v k',
   clookup (cupdate c k v) k' = if ckey_eqb k k' then Some v else clookup c k'.
-Proof. reflexivity. Qed.
+Proof.
+  intros c [[k p] l] v [[k' p'] l']. induction c as [|[q b] r IH].
+  - simpl. rewrite (andb_comm _ (ostr_eqb p p')). destruct (ostr_eqb p p'); [|reflexivity]. simpl.
+    destruct (Nat.eqb k k' && Z.eqb l l'); reflexivity.
+  - simpl. destruct (ostr_eqb q p) eqn:E1.
+    + apply ostr_eqb_eq in E1. subst q. simpl.
+      rewrite (andb_comm _ (ostr_eqb p p')). destruct (ostr_eqb p p') eqn:E2; [|reflexivity]. simpl.
+      destruct (Nat.eqb k k' && Z.eqb l l'); reflexivity.
+    + simpl. destruct (ostr_eqb q p') eqn:E2.
+      * apply ostr_eqb_eq in E2. subst q.
+        assert (ostr_eqb p p' = false) as ->.
+        { apply ostr_eqb_neq. apply ostr_eqb_neq in E1. congruence. }
+        rewrite andb_false_r. reflexivity.
+      * exact IH.
+Qed.
 
 (* ------------------------------------------------------------------ *)
 (* generic list facts                                                   *)
